@@ -1117,3 +1117,79 @@ pub unsafe fn null_sweep(h: *mut Value, f: *mut Filter) -> Result<u64, String> {
     expect_fail!("filter_match_all_grid(null,null,null)", err(haystack_filter_match_all_grid(null_f, null_v, null_v)));
     Ok(calls)
 }
+
+/// Every function that takes a C string, called with bytes that are not UTF-8 ("invalid text"):
+/// must return its failure sentinel with a retrievable message, must not crash, and must leave
+/// the handles it was given unchanged. Returns the number of calls made.
+pub unsafe fn bad_string_sweep() -> Result<u64, String> {
+    let mut calls = 0u64;
+    let bad = CString::new(vec![0x61u8, 0xff, 0xfe, 0x80]).expect("no NUL");
+    let ok = cs(b"a");
+    let _ = take_error();
+    macro_rules! expect_fail {
+        ($name:expr, $failed:expr) => {{
+            calls += 1;
+            let failed: bool = $failed;
+            if !failed {
+                return Err(format!("{} with a non-UTF-8 string did not return its failure sentinel", $name));
+            }
+            check_error(true, $name)?;
+        }};
+    }
+    macro_rules! ctor {
+        ($name:expr, $e:expr) => {{
+            let r: Option<Box<Value>> = $e;
+            let failed = r.is_none();
+            drop(r);
+            expect_fail!($name, failed);
+        }};
+    }
+    ctor!("make_str", haystack_value_make_str(bad.as_ptr()));
+    ctor!("make_number_with_unit", haystack_value_make_number_with_unit(1.0, bad.as_ptr()));
+    ctor!("make_ref", haystack_value_make_ref(bad.as_ptr()));
+    ctor!("make_ref_with_dis(bad,ok)", haystack_value_make_ref_with_dis(bad.as_ptr(), ok.as_ptr()));
+    ctor!("make_ref_with_dis(ok,bad)", haystack_value_make_ref_with_dis(ok.as_ptr(), bad.as_ptr()));
+    ctor!("make_uri", haystack_value_make_uri(bad.as_ptr()));
+    ctor!("make_symbol", haystack_value_make_symbol(bad.as_ptr()));
+    ctor!("make_xstr(bad,ok)", haystack_value_make_xstr(bad.as_ptr(), ok.as_ptr()));
+    ctor!("make_xstr(ok,bad)", haystack_value_make_xstr(ok.as_ptr(), bad.as_ptr()));
+    ctor!("from_zinc_string", haystack_value_from_zinc_string(bad.as_ptr()));
+    ctor!("from_json_string", haystack_value_from_json_string(bad.as_ptr()));
+    {
+        let r = haystack_filter_parse(bad.as_ptr());
+        let failed = r.is_none();
+        if let Some(b) = r {
+            destroy_filter(Box::into_raw(b));
+        }
+        expect_fail!("filter_parse", failed);
+    }
+    // timestamp constructor with a zone name that is not UTF-8
+    let date = Box::into_raw(haystack_value_make_date(2021, 3, 4).expect("date"));
+    let time = Box::into_raw(haystack_value_make_time(5, 6, 7).expect("time"));
+    ctor!("make_tz_datetime", haystack_value_make_tz_datetime(date, time, bad.as_ptr()));
+    let intact = matches!(&*date, Value::Date(_)) && matches!(&*time, Value::Time(_));
+    haystack_value_destroy(date);
+    haystack_value_destroy(time);
+    if !intact {
+        return Err("make_tz_datetime with a non-UTF-8 zone changed its date/time arguments".into());
+    }
+    // dict entry points with a key that is not UTF-8: failure, and the dict keeps its one entry
+    let dict = Box::into_raw(haystack_value_make_dict());
+    let entry = Box::into_raw(haystack_value_make_number(1.0));
+    if haystack_value_insert_dict_entry(dict, ok.as_ptr(), entry) != ResultType::TRUE {
+        return Err("insert_dict_entry failed on a fresh dict".into());
+    }
+    check_error(false, "insert_dict_entry")?;
+    expect_fail!("insert_dict_entry", haystack_value_insert_dict_entry(dict, bad.as_ptr(), entry) == ResultType::ERR);
+    let mut borrowed: *const Value = std::ptr::null();
+    expect_fail!("get_dict_entry", haystack_value_get_dict_entry(dict, bad.as_ptr(), &mut borrowed) == ResultType::ERR);
+    expect_fail!("remove_dict_entry", haystack_value_remove_dict_entry(dict, bad.as_ptr()) == ResultType::ERR);
+    let len = haystack_value_get_dict_len(dict);
+    let intact = len == 1 && borrowed.is_null() && matches!(&*entry, Value::Number(n) if n.value == 1.0);
+    haystack_value_destroy(dict);
+    haystack_value_destroy(entry);
+    if !intact {
+        return Err(format!("dict entry points with a non-UTF-8 key changed their arguments (dict len {len})"));
+    }
+    Ok(calls)
+}
